@@ -114,6 +114,61 @@ fn header(src: &mut Src, name: &str) -> String {
     format!("{name} DEFINITIONS {tags} ::= BEGIN")
 }
 
+const DEEP_KINDS: usize = 10;
+
+/// one declaration (with what it needs) nested `depth` levels deep; all of them are legal notation
+fn deep_decl(kind: usize, depth: usize) -> String {
+    let rep = |s: &str| s.repeat(depth);
+    match kind {
+        0 => format!("Deep ::= {}NULL{}", (0..depth).map(|i| format!("SEQUENCE {{ f{i} ")).collect::<String>(), rep(" }")),
+        1 => format!("Deep ::= {}NULL", rep("SEQUENCE OF ")),
+        2 => format!("Deep ::= {}NULL{}", (0..depth).map(|i| format!("CHOICE {{ c{i} ")).collect::<String>(), rep(" }")),
+        3 => format!("Deep ::= {}NULL", rep("SET (SIZE (1..2)) OF ")),
+        4 => format!("Deep ::= SEQUENCE {{ f Deep OPTIONAL }}\ndeep-v Deep ::= {}{{ }}{}", rep("{ f "), rep(" }")),
+        5 => format!("Deep ::= SEQUENCE OF Deep\nDeep-W ::= Deep {}(SIZE (1)){}", rep("(WITH COMPONENT "), rep(")")),
+        6 => format!("Deep ::= SEQUENCE {{ f Deep OPTIONAL }}\nDeep-W ::= Deep {}PRESENT{}", rep("(WITH COMPONENTS { f "), rep(" })")),
+        7 => format!("Deep-Box {{ T }} ::= SEQUENCE {{ v T }}\nDeep ::= {}INTEGER{}", rep("Deep-Box { "), rep(" }")),
+        8 => format!("Deep ::= CHOICE {{ c Deep, n NULL }}\ndeep-v Deep ::= {}n:NULL", rep("c:")),
+        _ => format!("Deep ::= SEQUENCE OF Deep\ndeep-v Deep ::= {}{}", rep("{ "), rep(" }")),
+    }
+}
+
+/// how deep the notation of `text` nests (braces, parentheses, `OF` chains, `c:` chains)
+fn nesting(text: &str) -> usize {
+    let (mut b, mut bm, mut p, mut pm) = (0i64, 0i64, 0i64, 0i64);
+    for ch in text.chars() {
+        match ch {
+            '{' => {
+                b += 1;
+                bm = bm.max(b);
+            }
+            '}' => b -= 1,
+            '(' => {
+                p += 1;
+                pm = pm.max(p);
+            }
+            ')' => p -= 1,
+            _ => {}
+        }
+    }
+    let longest_run = |pat: &str| -> usize {
+        let mut best = 0;
+        let mut rest = text;
+        while let Some(at) = rest.find(pat) {
+            let mut n = 0;
+            let mut tail = &rest[at..];
+            while tail.starts_with(pat) {
+                n += 1;
+                tail = &tail[pat.len()..];
+            }
+            best = best.max(n);
+            rest = tail;
+        }
+        best
+    };
+    (bm.max(pm) as usize).max(longest_run("SEQUENCE OF ")).max(longest_run("SET (SIZE (1..2)) OF ")).max(longest_run("c:"))
+}
+
 fn exotic_module(src: &mut Src) -> String {
     exotic_module_x(src, 200)
 }
@@ -132,24 +187,20 @@ fn exotic_module_x(src: &mut Src, max_depth: usize) -> String {
         s.push('\n');
     }
     if src.chance(10) {
-        // deep nesting
-        let depth = if max_depth <= 20 { 2 + src.pick(max_depth) } else { 20 + src.pick(max_depth - 20) };
-        let kind = src.pick(3);
-        let mut t = String::from("Deep ::= ");
-        for i in 0..depth {
-            match kind {
-                0 => t.push_str(&format!("SEQUENCE {{ f{i} ")),
-                1 => t.push_str("SEQUENCE OF "),
-                _ => t.push_str(&format!("CHOICE {{ c{i} ")),
+        // deep nesting: mostly 20..200 levels, a quarter 200..600 (every kind returns within a
+        // second there), one in twenty 5000..7000 levels, where the recursive descent exhausts an
+        // 8 MiB stack (finding F-deep-nesting)
+        let depth = if max_depth <= 20 {
+            2 + src.pick(max_depth)
+        } else {
+            match src.weighted(&[14, 5, 1]) {
+                0 => 20 + src.pick(max_depth - 20),
+                1 => 200 + src.pick(400),
+                _ => 5000 + src.pick(2000),
             }
-        }
-        t.push_str("NULL");
-        if kind != 1 {
-            for _ in 0..depth {
-                t.push_str(" }");
-            }
-        }
-        s.push_str(&t);
+        };
+        let kind = src.pick(DEEP_KINDS);
+        s.push_str(&deep_decl(kind, depth));
         s.push('\n');
     }
     s.push_str("END\n");
@@ -545,6 +596,8 @@ fn classify(v: &WV, text: &str) -> Option<&'static str> {
         }
         // the allocation of one bool per bit position fails under the worker's memory limit
         WV::Died(_) if huge_named_bit(text) => Some("F-named-bit-huge"),
+        // the recursive descent (lexer, linker, generator) exhausts the stack
+        WV::Died(_) if nesting(text) >= 2000 => Some("F-deep-nesting"),
         _ => None,
     }
 }
@@ -563,6 +616,7 @@ pub fn run(tier: Tier, seed: u64, replay: Option<String>) -> i32 {
     ctx.assumptions = vec![
         "a timeout is re-run on a fresh worker with 5x the bound before it counts as a hang; INFRA problems are reported as inconclusive (exit 2)".into(),
         "workers run each input on a thread with an 8 MiB stack (the main-thread default)".into(),
+        "a timeout on notation nested 1000 or more levels deep is counted as inconclusive, not as a hang (the work is quadratic in the depth); up to 600 levels an answer is demanded".into(),
     ];
     let timeout = Duration::from_secs(10);
     let mut handle = |ctx: &mut Ctx, job: &Job, r: Result<WV, String>| {
@@ -574,6 +628,9 @@ pub fn run(tier: Tier, seed: u64, replay: Option<String>) -> i32 {
                 ctx.class(&format!("class:{}", job.class));
                 match &v {
                     WV::Returned(k) => ctx.class(&format!("returned:{k}")),
+                    // the work grows with the square of the nesting depth: where the stack holds,
+                    // thousands of levels take longer than the bound; that is slow, not a hang
+                    WV::Timeout if nesting(&job.text) >= 1000 => ctx.class("inconclusive:timeout-on-1000-or-more-levels"),
                     other => {
                         let (what, sig) = match other {
                             WV::Panic(m) => (format!("panic: {m}"), format!("panic:{}", panic_signature(m))),
